@@ -1,480 +1,12 @@
 /-
-C21 — hook commands receive values verbatim and report their exit status.  Property theorems.
-
-Reading guide (statement → theorem):
-* "substituted into single arguments without changing how the command is split"
-    → `argv_elementwise`, `argc_independent_of_values`, `expand_tokens` (single pass), `expand_clean`
-* "reach the command exactly … when referenced"     → `value_verbatim`, `arg_verbatim`
-* "reach the command exactly as environment variables" → `env_passed`
-* "a non-zero status is reported as failed with that status" → `ExitReported_full` (def, FALSE on the
-   pinned tree: `exit_reported_witness`), `exit_reported_partial`, `exit_reported_fixed`, `exit_current`
+C21 — ties of the property theorems (Lemmas/C21Core.lean) to the CURRENT source: facts regenerated on
+every run by tools/xlate/c21 into Gen/C21.lean.  If the extractor no longer finds a fact, only this file
+stops building (tie broken); the theorems of the core file and the driver are unaffected.
 -/
-import MtxVerif.Model.C21
+import MtxVerif.Lemmas.C21Core
 import MtxVerif.Gen.C21
 
 namespace MtxVerif.C21
-
-/-! #### byte-class facts -/
-
-theorem identStart_not_special {c : UInt8} (h : isIdentStart c = true) : isSpecial c = false := by
-  simp only [isIdentStart, isSpecial, Bool.or_eq_true, Bool.and_eq_true, beq_iff_eq, decide_eq_true_eq] at h ⊢
-  simp only [Bool.or_eq_false_iff, Bool.and_eq_false_iff, beq_eq_false_iff_ne, ne_eq, decide_eq_false_iff_not]
-  omega
-
-theorem identStart_alnum {c : UInt8} (h : isIdentStart c = true) : isAlnum c = true := by
-  simp only [isIdentStart, isAlnum, Bool.or_eq_true, Bool.and_eq_true, beq_iff_eq, decide_eq_true_eq] at h ⊢
-  omega
-
-theorem identStart_ne_lbrace {c : UInt8} (h : isIdentStart c = true) : (c == LBRACE) = false := by
-  rw [beq_eq_false_iff_ne]
-  intro e; subst e
-  revert h; decide
-
-theorem alnum_ne_rbrace {c : UInt8} (h : isAlnum c = true) : (c != RBRACE) = true := by
-  rw [bne_iff_ne]
-  intro e; subst e
-  revert h; decide
-
-theorem isIdent_cons {k : Bytes} (h : isIdent k = true) :
-    ∃ c r, k = c :: r ∧ isIdentStart c = true ∧ r.all isAlnum = true := by
-  cases k with
-  | nil => simp [isIdent] at h
-  | cons c r =>
-    simp only [isIdent, Bool.and_eq_true] at h
-    exact ⟨c, r, rfl, h.1, h.2⟩
-
-/-! #### the skip counter is `drop` -/
-
-theorem expandGo_skip (f : Bytes → Bytes) : ∀ (n : Nat) (s : Bytes),
-    expandGo f n s = expandGo f 0 (s.drop n)
-  | 0, s => by simp
-  | n + 1, [] => by simp [expandGo]
-  | n + 1, _ :: r => by
-    simp only [expandGo, List.drop_succ_cons]
-    exact expandGo_skip f n r
-
-/-! #### single pass: the token structure of a word does not depend on the values -/
-
-inductive Tok where
-  | lit (c : UInt8)      -- byte copied
-  | ref (name : Bytes)   -- replaced by the value of `name`
-  | eaten                -- invalid syntax (`${}`, `${` without `}`): characters dropped
-  | dollar               -- `$` not followed by a name: kept
-deriving Repr, DecidableEq
-
-/-- tokenisation of a word; defined without any reference to the variable values -/
-def tokens : Nat → Bytes → List Tok
-  | _, [] => []
-  | k + 1, _ :: r => tokens k r
-  | 0, c :: r =>
-    if c == DOLLAR && !r.isEmpty then
-      let nw := getShellName r
-      (if nw.1.isEmpty then (if nw.2 > 0 then Tok.eaten else Tok.dollar) else Tok.ref nw.1) :: tokens nw.2 r
-    else Tok.lit c :: tokens 0 r
-
-def render (f : Bytes → Bytes) : Tok → Bytes
-  | .lit c => [c]
-  | .ref n => f n
-  | .eaten => []
-  | .dollar => [DOLLAR]
-
-/-- **Single pass.** The expansion is the concatenation, token by token, of a tokenisation that is
-computed from the word alone; each reference contributes the value exactly as it is, and the value is
-never looked at again (it can neither introduce nor destroy a reference). -/
-theorem expand_tokens (f : Bytes → Bytes) : ∀ (s : Bytes) (k : Nat),
-    expandGo f k s = (tokens k s).flatMap (render f) := by
-  intro s
-  induction s with
-  | nil => intro k; simp [expandGo, tokens]
-  | cons c r ih =>
-    intro k
-    cases k with
-    | succ k => simp only [expandGo, tokens]; exact ih k
-    | zero =>
-      simp only [expandGo, tokens]
-      split
-      · rw [List.flatMap_cons, ← ih]
-        congr 1
-        unfold emit
-        split
-        · split <;> rfl
-        · rfl
-      · rw [List.flatMap_cons, ← ih]; rfl
-
-/-- Two variable maps that agree on the names referenced by a word give the same argument. -/
-theorem expand_congr (f g : Bytes → Bytes) (s : Bytes)
-    (h : ∀ n, Tok.ref n ∈ tokens 0 s → f n = g n) : expand f s = expand g s := by
-  unfold expand
-  rw [expand_tokens, expand_tokens]
-  generalize tokens 0 s = ts at h
-  induction ts with
-  | nil => rfl
-  | cons t ts ih =>
-    rw [List.flatMap_cons, List.flatMap_cons, ih (fun n hn => h n (List.mem_cons_of_mem _ hn))]
-    congr 1
-    cases t with
-    | ref n => exact h n List.mem_cons_self
-    | _ => rfl
-
-/-- A word without `$` is passed unchanged. -/
-theorem expand_no_dollar (f : Bytes → Bytes) (s : Bytes) (h : ∀ c ∈ s, (c == DOLLAR) = false) :
-    expand f s = s := by
-  unfold expand
-  induction s with
-  | nil => rfl
-  | cons c r ih =>
-    simp only [expandGo, h c List.mem_cons_self, Bool.false_and]
-    rw [ih (fun c hc => h c (List.mem_cons_of_mem _ hc))]
-    rfl
-
-/-! #### `getShellName` on identifier references -/
-
-theorem takeWhile_append_stop {p : UInt8 → Bool} (n t : Bytes) (hn : n.all p = true)
-    (ht : t = [] ∨ ∃ d t', t = d :: t' ∧ p d = false) : (n ++ t).takeWhile p = n := by
-  induction n with
-  | nil =>
-    rcases ht with rfl | ⟨d, t', rfl, hd⟩
-    · rfl
-    · simp [hd]
-  | cons c r ih =>
-    simp only [List.all_cons, Bool.and_eq_true] at hn
-    simp only [List.cons_append, List.takeWhile, hn.1]
-    rw [ih hn.2]
-
-/-- bare reference: `$IDENT` where the identifier is the maximal alphanumeric run -/
-theorem getShellName_bare (s : Bytes) (h : isIdent (s.takeWhile isAlnum) = true) :
-    getShellName s = (s.takeWhile isAlnum, (s.takeWhile isAlnum).length) := by
-  obtain ⟨c, r, hk, hc, _⟩ := isIdent_cons h
-  cases s with
-  | nil => simp [List.takeWhile] at hk
-  | cons d t =>
-    have hd : d = c := by
-      by_cases ha : isAlnum d = true
-      · simp only [List.takeWhile, ha] at hk; exact (List.cons.inj hk).1
-      · have ha' : isAlnum d = false := by simpa using ha
-        simp [List.takeWhile, ha'] at hk
-    subst hd
-    simp only [getShellName, identStart_ne_lbrace hc, identStart_not_special hc]
-    rfl
-
-/-- braced reference: `${IDENT}` -/
-theorem getShellName_braced (t : Bytes) (hlt : (t.takeWhile (· != RBRACE)).length < t.length)
-    (h : isIdent (t.takeWhile (· != RBRACE)) = true) :
-    getShellName (LBRACE :: t) =
-      (t.takeWhile (· != RBRACE), (t.takeWhile (· != RBRACE)).length + 2) := by
-  obtain ⟨c, r, hk, hc, _⟩ := isIdent_cons h
-  have hscan : braceScan t = (t.takeWhile (· != RBRACE), (t.takeWhile (· != RBRACE)).length + 2) := by
-    simp only [braceScan, hlt, if_true]
-    rw [hk]; rfl
-  cases t with
-  | nil => simp [List.takeWhile] at hk
-  | cons d t' =>
-    have hd : d = c := by
-      by_cases ha : (d != RBRACE) = true
-      · simp only [List.takeWhile, ha] at hk; exact (List.cons.inj hk).1
-      · have ha' : (d != RBRACE) = false := by simpa using ha
-        simp [List.takeWhile, ha'] at hk
-    subst hd
-    have hl : (LBRACE == LBRACE) = true := by decide
-    cases t' with
-    | nil => simp only [getShellName, hl, if_true]; exact hscan
-    | cons c2 t'' =>
-      simp only [getShellName, hl, if_true, identStart_not_special hc, Bool.false_and]
-      exact hscan
-
-/-! #### clean words: expansion = plain left-to-right substitution -/
-
-/-- **Substitution theorem.** For every word all of whose `$` start `$IDENT` / `${IDENT}` (the only
-forms in the documentation; `cleanParse` is decidable and independent of the values), the argument
-is the word with each reference replaced, once and left to right, by the value — whatever bytes the
-values contain. -/
-theorem expand_clean_go (f : Bytes → Bytes) : ∀ (s : Bytes) (k : Nat) (p : List (Sum UInt8 Bytes)),
-    cleanGo k s = some p → expandGo f k s = renderPieces f p := by
-  intro s
-  induction s with
-  | nil => intro k p h; simp [cleanGo] at h; subst h; simp [expandGo, renderPieces]
-  | cons c r ih =>
-    intro k p h
-    cases k with
-    | succ k => simp only [cleanGo] at h; simp only [expandGo]; exact ih k p h
-    | zero =>
-      simp only [cleanGo] at h
-      split at h
-      · rename_i hc
-        cases r with
-        | nil => simp at h
-        | cons d r' =>
-          simp only at h
-          split at h
-          · -- braced
-            rename_i hd
-            split at h
-            · rename_i hcond
-              simp only [Bool.and_eq_true, decide_eq_true_eq] at hcond
-              obtain ⟨p', hp', rfl⟩ := Option.map_eq_some_iff.mp h
-              have hdl : d = LBRACE := by simpa using hd
-              subst hdl
-              have hg := getShellName_braced r' hcond.1 hcond.2
-              obtain ⟨c1, r1, hk, _, _⟩ := isIdent_cons hcond.2
-              have e := ih _ p' hp'
-              simp only [expandGo] at e
-              simp only [expandGo, hc, List.isEmpty_cons, Bool.not_false, Bool.and_self, if_true, hg]
-              rw [e]
-              simp only [renderPieces, List.flatMap_cons, emit]
-              rw [hk]; rfl
-            · simp at h
-          · -- bare
-            rename_i hd
-            split at h
-            · rename_i hid
-              obtain ⟨p', hp', rfl⟩ := Option.map_eq_some_iff.mp h
-              have hg := getShellName_bare (d :: r') hid
-              obtain ⟨c1, r1, hk, _, _⟩ := isIdent_cons hid
-              simp only [expandGo, hc, List.isEmpty_cons, Bool.not_false, Bool.and_self, if_true, hg]
-              rw [ih _ p' hp']
-              simp only [renderPieces, List.flatMap_cons, emit]
-              rw [hk]; rfl
-            · simp at h
-      · rename_i hc
-        obtain ⟨p', hp', rfl⟩ := Option.map_eq_some_iff.mp h
-        have hc' : (c == DOLLAR) = false := by simpa using hc
-        simp only [expandGo, hc', Bool.false_and]
-        rw [ih 0 p' hp']
-        simp [renderPieces]
-
-theorem expand_clean (f : Bytes → Bytes) (s : Bytes) (p : List (Sum UInt8 Bytes))
-    (h : cleanParse s = some p) : expand f s = renderPieces f p :=
-  expand_clean_go f s 0 p h
-
-/-- **Value verbatim.** A word that is exactly `$K` or `${K}` becomes the value of `K`, byte for byte. -/
-theorem value_verbatim (f : Bytes → Bytes) (s k : Bytes) (h : pureRef s = some k) :
-    expand f s = f k := by
-  unfold pureRef at h
-  split at h
-  · rename_i n hp
-    cases h
-    rw [expand_clean f s _ hp]
-    simp [renderPieces]
-  · cases h
-
-/-- the two concrete shapes, for every identifier -/
-theorem value_verbatim_bare (f : Bytes → Bytes) (k : Bytes) (hk : isIdent k = true) :
-    expand f (DOLLAR :: k) = f k := by
-  obtain ⟨c, r, rfl, hc, hr⟩ := isIdent_cons hk
-  have htw : (c :: r).takeWhile isAlnum = c :: r := by
-    have := takeWhile_append_stop (p := isAlnum) (c :: r) []
-      (by simp only [List.all_cons, identStart_alnum hc, hr, Bool.and_self]) (Or.inl rfl)
-    simpa using this
-  have hg := getShellName_bare (c :: r) (by rw [htw]; exact hk)
-  rw [htw] at hg
-  have hd : (DOLLAR == DOLLAR) = true := by decide
-  simp only [expand, expandGo, hd, List.isEmpty_cons, Bool.not_false, Bool.and_self, if_true, hg]
-  rw [expandGo_skip]
-  simp [emit, expandGo]
-
-theorem value_verbatim_braced (f : Bytes → Bytes) (k : Bytes) (hk : isIdent k = true) :
-    expand f (DOLLAR :: LBRACE :: (k ++ [RBRACE])) = f k := by
-  obtain ⟨c, r, rfl, hc, hr⟩ := isIdent_cons hk
-  have hall : (c :: r).all (· != RBRACE) = true := by
-    simp only [List.all_cons, Bool.and_eq_true]
-    refine ⟨alnum_ne_rbrace (identStart_alnum hc), ?_⟩
-    rw [List.all_eq_true] at hr ⊢
-    exact fun x hx => alnum_ne_rbrace (hr x hx)
-  have htw : ((c :: r) ++ [RBRACE]).takeWhile (· != RBRACE) = c :: r :=
-    takeWhile_append_stop (p := (· != RBRACE)) (c :: r) [RBRACE] hall
-      (Or.inr ⟨RBRACE, [], rfl, by decide⟩)
-  have hg := getShellName_braced ((c :: r) ++ [RBRACE]) (by rw [htw]; simp) (by rw [htw]; exact hk)
-  rw [htw] at hg
-  have hd : (DOLLAR == DOLLAR) = true := by decide
-  simp only [expand, expandGo, hd, List.isEmpty_cons, Bool.not_false, Bool.and_self, if_true, hg]
-  rw [expandGo_skip]
-  simp [emit, expandGo]
-
-/-! #### the argument list of a run -/
-
-/-- **Arguments are the element-wise expansion of the split command line**: whatever the values
-contain, they never change how the command was split. -/
-theorem argv_elementwise (rc : Bool) (prog : Bytes) (ws : List Bytes) (ok : Bool) (env osenv : Env)
-    (code : Nat) (argv : List Bytes) (rep : Option Nat)
-    (h : runCmd rc (some (prog :: ws)) ok env osenv code = .ran argv rep) :
-    argv = ws.map (expandEnv env osenv) ∧ rep = exitReport rc code := by
-  simp only [runCmd] at h
-  split at h
-  · cases h
-  · split at h
-    · cases h
-    · split at h
-      · cases h
-      · injection h with h1 h2
-        subst h1 h2
-        simp
-
-theorem argc_independent_of_values (rc : Bool) (prog : Bytes) (ws : List Bytes) (ok : Bool)
-    (env osenv : Env) (code : Nat) (argv : List Bytes) (rep : Option Nat)
-    (h : runCmd rc (some (prog :: ws)) ok env osenv code = .ran argv rep) :
-    argv.length = ws.length := by
-  rw [(argv_elementwise rc prog ws ok env osenv code argv rep h).1]; simp
-
-/-- an argument written `$K` / `${K}` with `K` passed by the server is the value, verbatim -/
-theorem arg_verbatim (rc : Bool) (prog : Bytes) (ws : List Bytes) (ok : Bool) (env osenv : Env)
-    (code : Nat) (argv : List Bytes) (rep : Option Nat)
-    (h : runCmd rc (some (prog :: ws)) ok env osenv code = .ran argv rep)
-    (i : Nat) (w k v : Bytes) (hw : ws[i]? = some w) (hk : pureRef w = some k)
-    (hv : envGet env k = some v) : argv[i]? = some v := by
-  rw [(argv_elementwise rc prog ws ok env osenv code argv rep h).1, List.getElem?_map, hw]
-  simp only [Option.map_some, expandEnv]
-  rw [value_verbatim _ w k hk]
-  simp [lookupVar, hv]
-
-/-- a run happens whenever the command splits into ≥ 1 word, the program exists and nothing contains NUL -/
-theorem runs_when_representable (rc : Bool) (prog : Bytes) (ws : List Bytes) (env osenv : Env) (code : Nat)
-    (h1 : env.any (fun kv => hasNul kv.2 || hasNul kv.1) = false)
-    (h2 : ((prog :: ws).map (expandEnv env osenv)).any hasNul = false) :
-    runCmd rc (some (prog :: ws)) true env osenv code =
-      .ran (ws.map (expandEnv env osenv)) (exitReport rc code) := by
-  simp only [runCmd, Bool.not_true, h1, h2]
-  simp
-
-/-! #### environment -/
-
-theorem envGet_mem {l : Env} {k v : Bytes} (h : envGet l k = some v) : (k, v) ∈ l := by
-  induction l with
-  | nil => simp [envGet] at h
-  | cons x r ih =>
-    obtain ⟨k', v'⟩ := x
-    simp only [envGet] at h
-    split at h
-    · rename_i hk
-      have : k' = k := by simpa using hk
-      subst this; cases h; exact List.mem_cons_self
-    · exact List.mem_cons_of_mem _ (ih h)
-
-theorem lastGet_key_mem {l : Env} {k x : Bytes} (h : lastGet l k = some x) : k ∈ l.map (·.1) := by
-  induction l with
-  | nil => simp [lastGet] at h
-  | cons y r ih =>
-    obtain ⟨k', v'⟩ := y
-    simp only [lastGet] at h
-    split at h
-    · rename_i x' hx
-      cases h; exact List.mem_cons_of_mem _ (ih hx)
-    · split at h
-      · rename_i hk
-        have : k' = k := by simpa using hk
-        subst this; simp
-      · cases h
-
-theorem lastGet_of_mem_nodup {l : Env} {k v : Bytes} (hnd : (l.map (·.1)).Nodup) (h : (k, v) ∈ l) :
-    lastGet l k = some v := by
-  induction l with
-  | nil => cases h
-  | cons y r ih =>
-    obtain ⟨k', v'⟩ := y
-    simp only [List.map_cons, List.nodup_cons] at hnd
-    simp only [lastGet]
-    rcases List.mem_cons.mp h with e | hm
-    · injection e with e1 e2
-      subst e1 e2
-      cases hx : lastGet r k with
-      | some x => exact absurd (lastGet_key_mem hx) hnd.1
-      | none => simp
-    · rw [ih hnd.2 hm]
-
-theorem lastGet_append (a b : Env) (k : Bytes) :
-    lastGet (a ++ b) k = (match lastGet b k with | some x => some x | none => lastGet a k) := by
-  induction a with
-  | nil =>
-    simp only [List.nil_append]
-    cases lastGet b k <;> simp [lastGet]
-  | cons y r ih =>
-    obtain ⟨k', v'⟩ := y
-    simp only [List.cons_append, lastGet, ih]
-    cases lastGet b k <;> simp
-
-/-- **Environment.** Every pair of `c.Env` reaches the child's environment with exactly its value —
-for every iteration order `envl` of the Go map and every inherited environment (which it overrides). -/
-theorem env_passed (env envl osenv : Env) (k v : Bytes) (hperm : envl.Perm env)
-    (hnd : (env.map (·.1)).Nodup) (h : envGet env k = some v) :
-    childGet envl osenv k = some v := by
-  unfold childGet
-  rw [lastGet_append]
-  have hm : (k, v) ∈ envl := hperm.symm.subset (envGet_mem h)
-  have hnd' : (envl.map (·.1)).Nodup := ((hperm.map (·.1)).nodup_iff).mpr hnd
-  rw [lastGet_of_mem_nodup hnd' hm]
-
-/-- a variable the server does not pass is inherited unchanged -/
-theorem env_inherited (env osenv : Env) (k : Bytes) (h : k ∉ env.map (·.1)) :
-    childGet env osenv k = lastGet osenv k := by
-  unfold childGet
-  rw [lastGet_append]
-  cases hx : lastGet env k with
-  | some x => exact absurd (lastGet_key_mem hx) h
-  | none => rfl
-
-/-! #### exit status -/
-
-/-- The property's last sentence, for a given shape of the `Wait` closure. -/
-def ExitReported_full (returnsCode : Bool) : Prop :=
-  ∀ code : Nat, code ≠ 0 → exitReport returnsCode code = some code
-
-/-- With `return ee.ExitCode()` the statement holds for every status. -/
-theorem exit_reported_fixed : ExitReported_full true := by
-  intro code h
-  simp [exitReport, waitResult, h]
-
-/-- Outside the decidable class `exitCodeDropped` the report is right, for either shape. -/
-theorem exit_reported_partial (rc : Bool) (code : Nat) (h : exitCodeDropped rc code = false) :
-    (code ≠ 0 → exitReport rc code = some code) ∧ (code = 0 → exitReport rc code = none) := by
-  cases rc
-  · have : code = 0 := by simpa [exitCodeDropped] using h
-    subst this; simp [exitReport, waitResult]
-  · refine ⟨fun h0 => by simp [exitReport, waitResult, h0], fun h0 => by simp [exitReport, waitResult, h0]⟩
-
-/-- Inside the class nothing is reported at all (so the class is exactly the failure set). -/
-theorem exit_dropped_iff (rc : Bool) (code : Nat) :
-    exitCodeDropped rc code = true ↔ (code ≠ 0 ∧ exitReport rc code = none) := by
-  cases rc <;> simp [exitCodeDropped, exitReport, waitResult]
-
-/-- Counterexample on the pinned tree's shape (`ee.ExitCode()` evaluated and dropped): status 1. -/
-theorem exit_reported_witness : ¬ ExitReported_full false := by
-  intro h
-  have := h 1 (by decide)
-  revert this; decide
-
-/-- exit status 0 is never reported as a failure (Restart = false) -/
-theorem exit_zero (rc : Bool) : exitReport rc 0 = none := by
-  cases rc <;> rfl
-
-/-! #### restarting hooks (`Restart: true`) -/
-
-/-- Every run of a restarting hook has the outcome of the first one: `run()` passes the unchanged
-command string and `c.Env` to `runOSSpecific` each time (nothing is carried over between runs). -/
-theorem restart_all_runs (rc : Bool) (split : Option (List Bytes)) (ok : Bool) (env osenv : Env) (code n : Nat) :
-    ∀ o ∈ runsRestart rc split ok env osenv code n, o = runCmdRestart rc split ok env osenv code := by
-  intro o ho
-  exact List.eq_of_mem_replicate ho
-
-/-- … so on every run the arguments are the element-wise expansion of the ORIGINAL words (a value is
-never expanded a second time), and the exit status is always reported. -/
-theorem restart_argv (rc : Bool) (prog : Bytes) (ws : List Bytes) (ok : Bool) (env osenv : Env) (code : Nat)
-    (argv : List Bytes) (rep : Option Nat)
-    (h : runCmdRestart rc (some (prog :: ws)) ok env osenv code = .ran argv rep) :
-    argv = ws.map (expandEnv env osenv) ∧ rep = some (waitResult rc code) := by
-  unfold runCmdRestart at h
-  cases hr : runCmd rc (some (prog :: ws)) ok env osenv code with
-  | ran a r =>
-    rw [hr] at h
-    injection h with h1 h2
-    subst h1 h2
-    exact ⟨(argv_elementwise rc prog ws ok env osenv code _ _ hr).1, rfl⟩
-  | panic => rw [hr] at h; cases h
-  | splitErr => rw [hr] at h; cases h
-  | startErr => rw [hr] at h; cases h
-
-theorem restart_reports_status (code : Nat) (h : code ≠ 0) : waitResult true code = code := by
-  simp [waitResult, h]
-
-/-! #### ties to the current source (facts regenerated by tools/xlate/c21) -/
 
 /-- the `Wait` closure of the current source returns the exit code (the driver's model assumes it) -/
 theorem tie_wait_returns_code : MtxVerif.Gen.C21.waitReturnsExitCode = true := rfl
@@ -491,26 +23,5 @@ theorem exit_current (code : Nat) (h : code ≠ 0) :
   · exact Or.inl ((exit_reported_partial _ code hd).1 h)
   · exact Or.inr rfl
 
-/-! #### non-vacuity / samples (tests, not theorems) -/
-
--- `$MTX_PATH` and `${G1}` are pure references
-example : pureRef (asc ['$','M','T','X','_','P','A','T','H']) = some (asc ['M','T','X','_','P','A','T','H']) := by decide
-example : pureRef (asc ['$','{','G','1','}']) = some (asc ['G','1']) := by decide
--- a value containing a space, a quote and a reference arrives as ONE argument, unchanged
-example :
-    runCmd true (some [asc ['h'], asc ['-','x'], asc ['$','G','1']]) true
-      [(asc ['G','1'], asc ['i','t','\'','s',' ','$','G','1'])] [] 3
-    = .ran [asc ['-','x'], asc ['i','t','\'','s',' ','$','G','1']] (some 3) := by decide
--- same run on the pinned tree's shape: the status is lost
-example :
-    runCmd false (some [asc ['h'], asc ['$','G','1']]) true [(asc ['G','1'], asc ['v'])] [] 3
-    = .ran [asc ['v']] none := by decide
--- bad syntax is eaten, `$` before a non-name is kept, special one-character names
-example : expand (fun _ => asc ['V']) (asc ['a','$','{','}','b','$','{','c']) = asc ['a','b','c'] := by decide
-example : expand (fun _ => asc ['V']) (asc ['$','.','$']) = asc ['$','.','$'] := by decide
-example : expand (fun n => n) (asc ['$','1','2','$','{','*','}']) = asc ['1','2','*'] := by decide
--- hypotheses of `env_passed` are satisfiable, and the passed value overrides the inherited one
-example : childGet [(asc ['A'], asc ['1'])] [(asc ['A'], asc ['0']), (asc ['B'], asc ['2'])] (asc ['A']) = some (asc ['1']) := by decide
-example : runCmd true (some []) true [] [] 0 = .panic := by decide
 
 end MtxVerif.C21
